@@ -236,6 +236,8 @@ def sweep(run, gen, focus, thorough, crate=None):
         dplan.append((ob, a, v))
     dres = dyn.run(crate, dreqs)
     stats["expression_twins"] = exprhyg.compare(run, crate, "C03" if focus == "both" else focus, all_cases, twin_ix, dreqs, dres)
+    if focus in ("C03", "both"):
+        stats["expression_twins_left"] = exprhyg.compare_left(run, crate, "C03", cases, dreqs, dres)
     accepted = {}
     for (ob, a, v), (idx, vals), (st, b) in zip(dplan, dreqs, dres):
         stats["runtime"] += 1
@@ -404,6 +406,8 @@ def sweep_rv(run, gen, focus, thorough):
             dplan.append((ob, v, la))
     dres = dyn.run(focus + "V", dreqs)
     stats["expression_twins"] = exprhyg.compare(run, focus + "V", focus, all_cases, twin_ix, dreqs, dres)
+    if focus == "C03":
+        stats["expression_twins_left"] = exprhyg.compare_left(run, focus + "V", focus, cases, dreqs, dres)
     rt = {}
     for (ob, v, la), (idx, vals), (st, b) in zip(dplan, dreqs, dres):
         stats["runtime"] += 1
